@@ -314,6 +314,16 @@ def render(d, line0=0):
     pre = ''.join(x + '\n' for x in d.get('pre_attrs') or [])
     post = ''.join(x + '\n' for x in d.get('post_attrs') or [])
     wh = ' ' + d['where'] if d.get('where') else ''
+    if d.get('in_fn'):
+        # the declaration sits in a function body (the generated module is a block-local item)
+        loc = d.get('local_items')
+        body = f"{render_attr(d, line0 + (2 if loc else 1))}\n{vis}struct {d['name']}{g}({d['inner']});"
+        return f"pub fn holder_{d['name'].lower()}() {{\n{loc + chr(10) if loc else ''}{body}\n}}\n"
+    if d.get('in_mod'):
+        # ... or in a nested module, with a visibility relative to it
+        loc = d.get('local_items')
+        body = f"{render_attr(d, line0 + (3 if loc else 2))}\n{vis}struct {d['name']}{g}({d['inner']});"
+        return f"pub mod holder_{d['name'].lower()} {{\n    use super::*;\n{loc + chr(10) if loc else ''}{body}\n}}\n"
     if d.get('via_macro_ty'):
         # the inner type arrives as a `$t:ty` fragment (an invisible group around the type)
         body = f"{render_attr(d, line0 + 2)}\n{vis}struct {d['name']}{g}($t);"
@@ -377,6 +387,8 @@ PRELUDE_NOSTD = '''#![no_std]
 #![allow(dead_code, unused_imports, unused_variables, unused_mut, clippy::all)]
 extern crate alloc;
 use nutype::nutype;
+pub const MIN: i32 = -100;
+pub const MAX: i32 = 100;
 #[derive(Debug, Clone, PartialEq, Eq)]
 pub enum MyErr { Bad, Worse(i32) }
 impl core::fmt::Display for MyErr { fn fmt(&self, f: &mut core::fmt::Formatter<'_>) -> core::fmt::Result { write!(f, "myerr") } }
@@ -449,6 +461,13 @@ def numeric_prelude():
     for t in FLOAT_TYPES:
         out.append(f'    pub const FLIM_{t.upper()}: {t} = 9.5;')
     out.append('}')
+    # user constants named like the limits of primitive types, reached through a path
+    out.append('pub const SH_U8: u8 = 200; pub const SH_I32: i32 = 300; pub const SH_F64: f64 = -300.5; pub const SH_LEN: usize = 30;')
+    out.append('pub mod month { pub const MIN: u8 = 1; pub const MAX: u8 = 12; }')
+    out.append('pub mod limits { pub const MIN: i32 = -40; pub const MAX: i32 = 100; }')
+    out.append('pub mod flimits { pub const MIN: f64 = -4.5; pub const MAX: f64 = 9.5; }')
+    out.append('pub mod lens { pub const MIN: usize = 2; pub const MAX: usize = 7; }')
+    out.append('pub struct Celsius; impl Celsius { pub const MIN: f64 = -273.15; pub const MAX: f64 = 1000.0; }')
     out.append('macro_rules! lim_m { () => { 6 } }')
     out.append('macro_rules! flim_m { () => { 6.5 } }')
     return '\n'.join(out) + '\n'
@@ -1078,6 +1097,17 @@ def build(tier='quick', seed=0):
         ('Box<str>', '', ['Debug', 'Clone', 'PartialEq', 'Eq', 'Hash', 'AsRef', 'Deref', 'Into', 'Display', 'Serialize', 'Deserialize'], '|s| !s.is_empty()', None),
         ("&'a str", "<'a>", ['Debug', 'Clone', 'Copy', 'PartialEq', 'Eq', 'PartialOrd', 'Ord', 'Hash', 'AsRef', 'Deref', 'Into', 'Display'], '|s| !s.is_empty()', None),
     ]
+    any_inners += [
+        # ... in a serde template: options, tuples, arrays, maps, unit
+        ('Option<String>', '', ['Debug', 'Clone', 'PartialEq', 'Eq', 'Hash', 'AsRef', 'Into', 'Serialize', 'Deserialize', 'Arbitrary'],
+         '|o| o.is_some()', '|o| o.map(|s| s.trim().to_string())'),
+        ('::core::option::Option<u32>', '', ['Debug', 'Clone', 'Copy', 'PartialEq', 'AsRef', 'Into', 'Serialize', 'Deserialize'], '|o| *o != Some(0)', None),
+        ('(i32, String)', '', ['Debug', 'Clone', 'PartialEq', 'AsRef', 'Into', 'Serialize', 'Deserialize'], '|t| t.0 >= 0', None),
+        ('[u8; 4]', '', ['Debug', 'Clone', 'Copy', 'PartialEq', 'Eq', 'Hash', 'AsRef', 'Deref', 'Into', 'IntoIterator', 'Serialize', 'Deserialize'], '|a| a[0] != 0', None),
+        ('std::collections::BTreeMap<String, i32>', '', ['Debug', 'Clone', 'PartialEq', 'AsRef', 'Deref', 'Into', 'IntoIterator', 'Serialize', 'Deserialize'],
+         '|m| m.len() < 4', None),
+        ('()', '', ['Debug', 'Clone', 'Copy', 'PartialEq', 'Into', 'Serialize', 'Deserialize'], None, None),
+    ]
     if thorough:
         any_inners += [
             ('Option<T>', '<T: Clone>', ['Debug', 'Clone', 'PartialEq', 'AsRef', 'Deref', 'Into'], '|o| o.is_some()', None),
@@ -1233,6 +1263,10 @@ def build(tier='quick', seed=0):
             if 'TryFrom' not in dl:
                 nostd.append(decl(fam, t, derives=dl, default=dflt, tags=['nostd', 'single-trait']))
     nostd.append(decl('float', 'f32', validators=[V('finite')], derives=['Debug', 'PartialEq', 'Eq', 'PartialOrd', 'Ord'], tags=['nostd']))
+    # user constants whose names a template could also introduce, in the no_std crate as well
+    nostd.append(decl('int', 'i32', validators=[V('greater_or_equal', 'MIN', -100, 'expr'), V('less', 'MAX', 100, 'expr')],
+                      derives=['Debug', 'TryFrom', 'Arbitrary', 'Display', 'Default', 'FromStr', 'Serialize', 'Deserialize'],
+                      default={'text': 'MAX - 1', 'value': 99}, tags=['name-capture', 'nostd']))
     nostd.append(decl('any', 'Point', derives=['Debug', 'Clone', 'Copy', 'PartialEq', 'Eq', 'PartialOrd', 'Ord', 'Hash', 'AsRef', 'Deref', 'Into', 'Borrow', 'Display', 'FromStr', 'From', 'Default'],
                       default={'text': 'Point { x: 1, y: 2 }', 'value': None}, tags=['nostd']))
     nostd.append(decl('any', 'Point', validators=[V('predicate', 'pred_point', form='path', callee='pred_point')],
@@ -1355,12 +1389,55 @@ def build(tier='quick', seed=0):
                   via_macro_ty=True))
     full.append(X(decl('float', 'f64', validators=[V('finite'), V('greater_or_equal', '0.0', 0.0, 'lit')], derives=['Debug', 'Clone', 'Copy', 'PartialEq', 'Eq', 'PartialOrd', 'Ord', 'TryFrom'],
                        tags=['via-macro']), via_macro_ty=True))
+    # bounds that are paths ending in MIN / MAX but are *not* the limits of the inner type
+    full.append(decl('int', 'u8', validators=[V('greater_or_equal', 'month::MIN', 1, 'expr'), V('less_or_equal', 'month::MAX', 12, 'expr')],
+                     derives=['Debug', 'TryFrom', 'FromStr', 'Arbitrary'], tags=['minmax-path']))
+    full.append(decl('int', 'i32', validators=[V('greater', 'limits::MIN', -40, 'expr'), V('less', 'crate::limits::MAX', 100, 'expr')],
+                     derives=['Debug', 'TryFrom', 'Arbitrary', 'Display'], tags=['minmax-path']))
+    full.append(decl('float', 'f64', validators=[V('greater_or_equal', 'Celsius::MIN', -273.15, 'expr'), V('less_or_equal', 'flimits::MAX', 9.5, 'expr')],
+                     derives=['Debug', 'TryFrom', 'Arbitrary'], tags=['minmax-path']))
+    full.append(decl('string', 'String', validators=[V('len_char_min', 'lens::MIN', 2, 'expr'), V('len_char_max', 'lens::MAX', 7, 'expr')],
+                     derives=['Debug', 'TryFrom', 'Arbitrary'], tags=['minmax-path']))
+    # unusual places: a function body, a nested module with restricted visibility
+    for fam, t, vs, sn in (('int', 'i32', [V('greater', '0', 0, 'lit'), V('less', 'K_I32 * 2', K * 2, 'expr')], []),
+                           ('string', 'String', [V('not_empty'), V('len_char_max', 'MAXLEN', MAXLEN, 'expr')], [S('trim')]),
+                           ('float', 'f64', [V('finite'), V('greater_or_equal', '0.0', 0.0, 'lit')], [])):
+        ds_ = ['Debug', 'Clone', 'PartialEq', 'TryFrom', 'FromStr', 'Display', 'AsRef', 'Deserialize', 'Serialize']
+        full.append(X(decl(fam, t, sanitizers=sn, validators=vs, derives=ds_, vis='', tags=['place']), in_fn=True))
+        full.append(X(decl(fam, t, sanitizers=sn, validators=vs, derives=ds_, vis='pub', tags=['place']), in_fn=True))
+        for vis_ in ('pub(super)', 'pub(crate)', 'pub', ''):
+            full.append(X(decl(fam, t, sanitizers=sn, validators=vs, derives=ds_, vis=vis_, tags=['place']), in_mod=True))
+    # ... where a name means something else than one scope further out. `value` is what the name denotes inside the
+    # hidden module (what every generated impl of the pinned tree agrees on); `site_value` is what it denotes where
+    # the user wrote it (R-SCOPE): a constant local to the function body is invisible from the hidden module, and
+    # `super::` written in the attribute is relative to the hidden module, i.e. names the holder's item
+    full.append(X(decl('int', 'u8', validators=[V('less_or_equal', 'SH_U8', 200, 'expr', site_value=10)], derives=['Debug', 'TryFrom', 'Arbitrary', 'Default', 'Display'],
+                       default={'text': 'SH_U8 - 1', 'value': 199}, vis='', tags=['place', 'scope']),
+                  in_fn=True, local_items='const SH_U8: u8 = 10;'))
+    full.append(X(decl('int', 'i32', validators=[V('greater', 'super::SH_I32', -7, 'expr', site_value=300), V('less', '500', 500, 'lit')],
+                       derives=['Debug', 'TryFrom', 'Arbitrary', 'Display'], vis='pub(super)', tags=['place', 'scope']),
+                  in_mod=True, local_items='pub const SH_I32: i32 = -7;'))
+    full.append(X(decl('float', 'f64', validators=[V('greater_or_equal', 'SH_F64', -300.5, 'expr', site_value=0.5), V('less', '5.0', 5.0, 'lit')],
+                       derives=['Debug', 'TryFrom', 'Arbitrary', 'Display'], vis='pub', tags=['place', 'scope']),
+                  in_fn=True, local_items='const SH_F64: f64 = 0.5;'))
+    full.append(X(decl('string', 'String', validators=[V('len_char_min', 'SH_LEN', 2, 'expr'), V('len_char_max', 'super::SH_LEN + 3', 5, 'expr', site_value=33)],
+                       derives=['Debug', 'TryFrom', 'Arbitrary', 'Display'], vis='pub', tags=['place', 'scope']),
+                  in_mod=True, local_items='pub const SH_LEN: usize = 2;'))
     # Arbitrary next to a validation the generator knows nothing about (refused by the pinned tree; if a tree accepts it,
     # the generator cannot know which values are valid)
     for fam, t in (('int', 'i64'), ('int', 'u8'), ('float', 'f64'), ('string', 'String')):
         cname_ = {'int': f'check_{t}', 'float': f'check_{t}', 'string': 'check_str'}[fam]
         full.append(decl(fam, t, custom={'with_text': cname_, 'form': 'path', 'callee': cname_, 'error': 'MyErr'}, derives=['Debug', 'Arbitrary'],
                          expect='either', tags=['arb-custom']))
+    # string Arbitrary next to a custom sanitizer, in every position relative to the built-in ones (refused by the pinned
+    # tree; where a tree accepts it, the generator must still only yield values the validators accept)
+    strip = S('with', '|s: String| s.replace(char::is_control, "")', 'closure')
+    for sans in ([S('trim'), strip], [strip, S('trim')], [S('lowercase'), strip], [strip], [S('trim'), S('lowercase'), strip], [S('trim'), strip, S('uppercase')]):
+        full.append(decl('string', 'String', sanitizers=sans, validators=[V('not_empty'), V('len_char_max', '20', 20, 'lit')],
+                         derives=['Debug', 'Arbitrary'], expect='either', tags=['arb-custom']))
+    for fam, t, vs in (('float', 'f64', [V('finite'), V('greater_or_equal', '0.0', 0.0, 'lit')]), ('int', 'i16', [V('greater', '0', 0, 'lit')])):
+        w = S('with', '|x| x / 2.0' if fam == 'float' else '|x| x / 2', 'closure')
+        full.append(decl(fam, t, sanitizers=[w], validators=vs, derives=['Debug', 'Arbitrary'], expect='either', tags=['arb-custom']))
     # type names that end in `Error` (the generated error type is `<Name>Error`, the parse error `<Name>ParseError`)
     full.append(X(decl('int', 'i32', validators=[V('less', '256', 256, 'lit'), V('greater_or_equal', '0', 0, 'lit')], derives=['Debug', 'TryFrom', 'FromStr', 'Deserialize', 'Display'],
                        tags=['name']), name_override='ExitError'))
